@@ -30,6 +30,7 @@ RULE = ("virtual tier: case = retries 1..3 (4 in thorough) x timeout {0.5, 1, 2.
         "the tuple itself")
 ASSUMPTIONS = [
     "model of asyncio's datagram transport: nothing is delivered after close()/abort(); connection_lost is scheduled by call_soon",
+    "outcomes are scripted per transmission: one socket per attempt and one socket for all attempts are both accepted (then a reply that is late for its own attempt may legitimately answer a later one)",
     "an OS error / connection loss during an attempt may propagate to the caller OR count as an unanswered attempt (the next attempt may start at once or after the timeout)",
     "on real sockets elapsed time is only bounded from below",
 ]
@@ -76,6 +77,10 @@ def acceptable(retries, T, kinds, reply, frs=None):
             go(k + 1, t0 + T)
             go(k + 1, t0 + s["d"])
         else:
+            if kind == "late" and s["d"] < (retries - k) * T:
+                # an implementation that keeps one socket for all attempts legitimately receives the late reply while
+                # it waits for a later attempt (it IS a reply to the identical request)
+                acc.append(("ok", b"" if s.get("empty") else reply, t0 + s["d"]))
             go(k + 1, t0 + T)
 
     go(0, 0.0)
@@ -201,14 +206,18 @@ def run_virtual_case(case) -> Result:
     if len(transports) > retries:
         return bad("%d endpoints were opened for retries=%d" % (len(transports), retries))
     first = None
+    total_sent = sum(len(tr.sent) for tr in transports)
+    if total_sent > retries:
+        return bad("%d datagrams were transmitted for retries=%d" % (total_sent, retries))
+    if total_sent == 0:
+        return bad("nothing was transmitted")
     for i, tr in enumerate(transports):
-        if len(tr.sent) != 1:
-            return bad("endpoint %d transmitted %d datagrams (exactly one per attempt expected)" % (i, len(tr.sent)))
-        if via != "client" and tr.sent[0][1] != REQUEST:
-            return bad("endpoint %d transmitted %s, the request is %s" % (i, tr.sent[0][1].hex(), REQUEST.hex()))
-        first = first or tr.sent[0][1]
-        if tr.sent[0][1] != first:
-            return bad("attempt %d transmitted different bytes than attempt 0" % i)
+        for (_t, payload, _a) in tr.sent:
+            if via != "client" and payload != REQUEST:
+                return bad("endpoint %d transmitted %s, the request is %s" % (i, payload.hex(), REQUEST.hex()))
+            first = first or payload
+            if payload != first:
+                return bad("a retransmission differs from the first transmission")
         if tr.remote_addr is not None and tuple(tr.remote_addr) != ("192.0.2.7", 1161):
             return bad("endpoint %d talks to %r" % (i, tr.remote_addr))
         if not tr.closed:
@@ -330,6 +339,11 @@ def run_loopback_case(case) -> Result:
             return bad("outcome %r for a closed port" % (out,))
         return Result(None, nontrivial, classes + ["refused"])
     answered = [i for i, k in enumerate(kinds[:retries]) if k in ("reply", "dup", "empty")]
+    late_ok = [i for i, k in enumerate(kinds[:retries]) if k == "late" and (i + 1.6) * T < retries * T
+               and (not answered or i + 1.6 < answered[0])]
+    if late_ok and out == ("ok", REPLY) and len(seen) <= retries:
+        # one socket for all attempts: a reply that is late for its own attempt legitimately answers a later one
+        return Result(None, nontrivial, classes + ["late_reply_accepted_on_shared_socket"])
     if answered:
         i = answered[0]
         want = b"" if kinds[i] == "empty" else REPLY
